@@ -1484,7 +1484,7 @@ pub fn run(ctx: &Ctx) -> Report {
     {
         let mut rng = ctx.rng("c15-exhaustive");
         let n_hi = ctx.pick(5, 7);
-        let scenarios = ctx.pick(20_000, 150_000);
+        let scenarios = ctx.pick(50_000, 200_000);
         let budget = ctx.pick(3000u64, 30_000u64);
         let mut completed = 0u64;
         let mut truncated = 0u64;
@@ -1544,7 +1544,7 @@ pub fn run(ctx: &Ctx) -> Report {
     // ---- family 2: larger networks, random answer orders --------------------------------------
     {
         let mut rng = ctx.rng("c15-random");
-        let scenarios = ctx.pick(8000, 60_000);
+        let scenarios = ctx.pick(20_000, 80_000);
         let orders = ctx.pick(5, 10);
         let lo = ctx.pick(5, 7);
         let mut sampled = 0;
